@@ -56,7 +56,7 @@ theorem roundtrip (style : Style) (d : Decor) (hd : d.ok) (f : Forest) (ha : adm
     obtain ⟨hc, hch⟩ := parseNode_flat sectStyle_Bar (Style.desc .bar) 120 cfgBar_desc (by decide) rfl d hd f hshape hok
     exact key _ hc hch
   | enc =>
-    obtain ⟨hc, hch⟩ := parseNode_enc d hd f hshape hok
+    obtain ⟨hc, hch⟩ := parseNode_enc d hd f hok
     exact key _ hc hch
 
 /-- the full statement holds -/
@@ -113,7 +113,7 @@ theorem roundtrip_reread (style : Style) (d : Decor) (hd : d.ok) (f : Forest) (h
     simp only [styleCfg, render, hc, hf]
     simp
   | enc =>
-    obtain ⟨hc, hf⟩ := loop_enc d hd f hshape hok { curr := curr } hclean rfl
+    obtain ⟨hc, hf⟩ := loop_enc d hd f hok { curr := curr } hclean rfl
     simp only [styleCfg, render, hc, hf]
     simp
 
@@ -201,6 +201,14 @@ example : (parseTree .bar (render .bar (decorOf 4) [.node (str "s") none [.node 
 example : (parseTree .enc (render .enc (decorOf 3) [.node (str "o") (some (str "1")) [],
       .node (str "p") (some (str "#")) []])).map (flat 0)
     = some [(0, str "o", some (str "1")), (0, str "p", some (str "#"))] := by
+  decide +kernel
+/-- sections in the `{x}` format: `{name` … `}`, nested, comment glued to the name -/
+example : render .enc (decorOf 4) [.node (str "s") none [.node (str "b") (some (str "1")) []]]
+    = str "{s# glued text\n\tb=1\n}\t# t\n" := by decide +kernel
+example : (parseTree .enc (render .enc (decorOf 4) [.node (str "s") none [.node (str "b") (some (str "1")) [],
+      .node (str "t") none [.node (str "c") none []]], .node (str "o") (some (str "2")) []])).map (flat 0)
+    = some [(0, str "s", none), (1, str "b", some (str "1")), (1, str "t", none), (2, str "c", none),
+            (0, str "o", some (str "2"))] := by
   decide +kernel
 end examples
 
